@@ -322,6 +322,25 @@ def run(ck):
                                 "sum of the responses of the molecules", dict(sysinp, dephasing_rates=dph), dev)
         except Exception as e:
             ck.fail("raises:variant", "calculation of a transformed system raised %r" % (e,), sysinp)
+        # ---- prior use of the aggregate: another initial state was requested from it before the response is calculated -----------------------
+        if s % 2 == 1:
+            try:
+                for cond_ in ("impulsive_excitation", "thermal_excited_state"):
+                    agg_h, agg1_h = build(energies, dipoles, widths, couplings)
+                    eUt_h = evolution(agg1_h, relax)
+                    try:
+                        agg_h.get_DensityMatrix(condition_type=cond_, temperature=300.0) if cond_ != "impulsive_excitation" else agg_h.get_DensityMatrix(condition_type=cond_)
+                    except Exception:
+                        continue
+                    r_h, _ = response(agg_h, eUt_h, pol, t2)
+                    dev = max(float(np.abs(r_h[st] - base[st]).max()) for st in (signal_TOTL, signal_REPH, signal_NONR)) / scale
+                    ck.resid("response after another initial state was requested from the aggregate", dev)
+                    ck.case(("prior-state", s, cond_), nontrivial=True, kind="history")
+                    if dev > 1e-10:
+                        ck.fail("history:prior-initial-state", "the response of an aggregate from which get_DensityMatrix(%r) was requested before differs from the response "
+                                "of a freshly built one" % cond_, dict(sysinp, prior_request=cond_), dev)
+            except Exception as ex:
+                ck.fail("raises:prior-initial-state", "raised %r" % (ex,), sysinp)
         # ---- polarisation scan on one lab and one calculator --------------------------------------------------------------------------
         if s % 3 == 0:
             calc = make_calc()
